@@ -177,7 +177,7 @@ impl Prop for MlpgDense {
         "mlpg-dense".into()
     }
     fn rule(&self) -> String {
-        "public MlpgAdjust::new(.., ModelStream{gv: None}).create(durations): 1..60 states, durations 1..8, vector length 1..4, means in [-3,3], variances in [0.05,3], window sets {static; +delta; +delta+accel (width 3); width-5; mixed 3/5; mixed 5/3 (widest window not last)}, exact +-0.0 among the means (a third of the cases); in 30 % of the cases the same MlpgAdjust object first serves 1-2 other alignments of the same states (same total, reordered or shifted; or unrelated), voicing {non-MSD all voiced | random | all unvoiced | islands of 1-2 frames | voiced with short gaps}; compared with the dense solve. Non-trivial: >= 1 dynamic window and >= 2 voiced frames".into()
+        "public MlpgAdjust::new(.., ModelStream{gv: None}).create(durations): 1..60 states, durations 1..8, vector length 1..4, means in [-3,3], variances in [0.05,3], window sets {static; +delta; +delta+accel (width 3); width-5; mixed 3/5; mixed 5/3 (widest window not last)}, exact +-0.0 among the means (a third of the cases); tied variances (components sharing the static variance while the dynamic ones differ, or one variance per state) in a third of the cases; in 30 % of the cases the same MlpgAdjust object first serves 1-2 other alignments of the same states (same total, reordered or shifted; or unrelated), voicing {non-MSD all voiced | random | all unvoiced | islands of 1-2 frames | voiced with short gaps}; compared with the dense solve. Non-trivial: >= 1 dynamic window and >= 2 voiced frames".into()
     }
     fn tape_len(&self, _: Tier) -> usize {
         60 * (4 * 3 * 2 * 4 + 3) + 32
@@ -209,6 +209,9 @@ impl Prop for MlpgDense {
         // exact zeros (+0.0 / -0.0) among the means: flat trajectories are what real models
         // have for the dynamic features of steady states
         let zero_mode = t.weighted(&[6, 2, 1]);
+        // 0: independent variances | 1: all components share the static variance of the state, the
+        // dynamic ones differ | 2: one variance for everything in the state
+        let var_mode = t.weighted(&[6, 2, 1]);
         let states = (0..nstates)
             .map(|i| {
                 let means: Vec<f64> = (0..nw * vector_length)
@@ -228,7 +231,19 @@ impl Prop for MlpgDense {
                         }
                     })
                     .collect();
-                let vars: Vec<f64> = (0..nw * vector_length).map(|_| t.log_uniform(0.05, 3.0)).collect();
+                // tied variances: real voices share variance vectors between components and states
+                // (variance flooring, tied covariances); independent draws never produce equal ones
+                let shared_static = t.log_uniform(0.05, 3.0);
+                let vars: Vec<f64> = (0..nw * vector_length)
+                    .map(|m| {
+                        let v = t.log_uniform(0.05, 3.0);
+                        match var_mode {
+                            1 if m < vector_length => shared_static,
+                            2 => shared_static,
+                            _ => v,
+                        }
+                    })
+                    .collect();
                 let voiced = match vmode {
                     0 => true,
                     1 => t.chance(0.5),
